@@ -191,8 +191,13 @@ def check(case, ctx):
 
     if op == "unroll":
         state_io = case["state_io"]
-        ok, r = ctx.call(cg.tx.unroll, c, n, dict(state_io), prefix=case["prefix"])
+        sarg = dict(state_io)
+        ok, r = ctx.call(cg.tx.unroll, c, n, sarg, prefix=case["prefix"])
         what = f"unroll(n={n}, state_io={state_io})"
+        ctx.count("cmp:arguments_unchanged")
+        if sarg != state_io or list(sarg) != list(state_io):
+            ctx.violation("unroll_modified_state_io", f"{what}: the caller's state_io dict is now {sarg}")
+            return
         if not ok:
             if case.get("hostile") and isinstance(r, ValueError) and ("already" in str(r) or "overlap" in str(r)):
                 ctx.reject("name_clash")
@@ -264,7 +269,12 @@ def check(case, ctx):
         cc.blackboxes["zz_phantom"] = cg.BlackBox("zz", ["a"], ["b"])
         cc.graph.add_node("zz_phantom.a", type="bb_input", output=False)
         ctx.count("copy_edited_before_call")
+    ip0 = list(kw["ignore_pins"]) if isinstance(kw["ignore_pins"], list) else None
     ok, r = ctx.call(cg.tx.sequential_unroll, c, n, D, Q, **kw)
+    ctx.count("cmp:arguments_unchanged")
+    if ip0 is not None and kw["ignore_pins"] != ip0:
+        ctx.violation("sequential_unroll_modified_ignore_pins", f"{what}: the caller's ignore_pins list is now {kw['ignore_pins']}")
+        return
     # the cell definitions are shared by every instance and every later call: an unroll must not edit them
     try:
         G._check_registry(c, cd)
